@@ -98,6 +98,12 @@ impl PanicRec {
         let f = self.file.rsplit("/src/").next().unwrap_or(&self.file);
         format!("{f}")
     }
+    /// A panic raised by the harness's own code (its sources are compiled with relative paths,
+    /// `src/<file>.rs`; the repository's are absolute): a defect of the machinery, never a verdict
+    /// about the library.
+    pub fn is_harness(&self) -> bool {
+        self.file.starts_with("src/")
+    }
     pub fn short(&self) -> String {
         let m: String = self.msg.chars().take(160).collect();
         format!("panic at {}:{}: {}", self.file, self.line, m)
@@ -160,13 +166,21 @@ pub fn catch<T>(f: impl FnOnce() -> T) -> Result<T, PanicRec> {
     LAST_PANIC.with(|c| *c.borrow_mut() = None);
     match catch_unwind(AssertUnwindSafe(f)) {
         Ok(v) => Ok(v),
-        Err(_) => Err(LAST_PANIC.with(|c| c.borrow_mut().take()).unwrap_or(PanicRec {
-            thread: "?".into(),
-            msg: "<panic without record>".into(),
-            file: "?".into(),
-            line: 0,
-            harness_thread: true,
-        })),
+        Err(_) => {
+            let rec = LAST_PANIC.with(|c| c.borrow_mut().take()).unwrap_or(PanicRec {
+                thread: "?".into(),
+                msg: "<panic without record>".into(),
+                file: "?".into(),
+                line: 0,
+                harness_thread: true,
+            });
+            if rec.is_harness() {
+                eprintln!("HARNESS-ERROR: the harness itself panicked: {}", rec.short());
+                println!("HARNESS-ERROR: the harness itself panicked: {}", rec.short());
+                std::process::exit(3);
+            }
+            Err(rec)
+        }
     }
 }
 
